@@ -230,7 +230,7 @@ def explore(ctx, res, replay=None):
     big = pid == 'C20'
     deep = pid == 'C19'
     for k in range(nrand):
-        o = gen_prog.Opts(canonical=rng.random() < 0.6, big_consts=0.35 if big else 0.02,
+        o = gen_prog.Opts(canonical=rng.random() < 0.6, share_lines=0.5 if k % 5 == 2 else 0.0, max_defs=3 if k % 5 == 2 else 3, big_consts=0.35 if big else 0.02,
                           p_call=0.9 if deep else 0.6, allow_diverge=0.05)
         srcs.append(gen_prog.ProgGen(rng, o).program()[:2])
     if pid == 'C19':
